@@ -30,8 +30,19 @@ THEOREMS = [
     "Ural.Props.C08.has_valid_tld_case_insensitive",
     "Ural.Props.C08.is_valid_tld_puny_insensitive",
     "Ural.Props.C08.punyLaws_id",
+    "Ural.Props.C08.url_functions_via_host",
+    "Ural.Props.C08.url_psl_spec",
+    "Ural.Props.C08.url_negative_cases",
+    "Ural.Props.C08.url_host_of_parts",
+    "Ural.Props.C08.url_functions_of_parts",
+    "Ural.Props.C08.url_invariance",
+    "Ural.Props.C08.url_same_as_bare_host",
+    "Ural.Props.C08.url_psl_of_parts",
+    "Ural.Props.C08.url_trailing_dot",
+    "Ural.Props.C08.url_host_bracketed",
+    "Ural.TldUrl.protoLen_bare",
 ]
-TABLE_OBLIGATIONS = ["Ural.Props.C08.special_hosts_probes"]
+TABLE_OBLIGATIONS = ["Ural.Props.C08.special_hosts_probes", "Ural.Props.C08.protocol_pattern_unchanged"]
 RULE = (
     "Four kinds of cases. 'h': a group of hostnames against the bundled rule list (one group per "
     "bundled rule: the rule as a host with its wildcard instantiated by a fresh label and by every "
